@@ -222,6 +222,29 @@ func VF_C07_Maps(shape, kind int) {
 		vf.Assert("insertion-order-irrelevant", k.RankValues(f(A, false), f(A, true)) == eq)
 		vf.Assert("insertion-order-irrelevant-vs-third", k.RankValues(f(A, false), f(B, false)) == k.RankValues(f(A, true), f(B, true)))
 		vf.BudgetReset()
+		// the specified order: key then value over the sorted keys, a proper prefix first
+		sorted := func(x kv) kv {
+			if len(x.k) == 2 && vf.StrLess(x.k[1], x.k[0]) {
+				return kv{[]string{x.k[1], x.k[0]}, []int{x.v[1], x.v[0]}}
+			}
+			return x
+		}
+		less := func(x, y kv) bool {
+			x, y = sorted(x), sorted(y)
+			for i := 0; i < len(x.k) && i < len(y.k); i++ {
+				if !vf.StrEq(x.k[i], y.k[i]) {
+					return vf.StrLess(x.k[i], y.k[i])
+				}
+				if x.v[i] != y.v[i] {
+					return x.v[i] < y.v[i]
+				}
+			}
+			return len(x.k) < len(y.k)
+		}
+		vf.Budget(100 * listBudget)
+		rab := k.RankValues(f(A, false), f(B, true))
+		vf.Assert("map-order-is-key-then-value-over-sorted-keys", vf.And((rab == lt) == less(A, B), (rab == gt) == less(B, A)))
+		vf.BudgetReset()
 		preorderLaws(f(A, false), f(B, false), f(C, true), nil)
 	case 1, 5:
 		f := func(x kv) col.MapLike[string, int] {
@@ -408,4 +431,50 @@ func catalogAny(key string, v any) any {
 	c := col.Catalog[string, any](nil).Make()
 	c.SetValue(key, v)
 	return c
+}
+
+// VF_C07_MapOrder: the order of Go maps is the specified one - key then value over the sorted keys, a proper
+// prefix first - not merely some preorder.  Sizes na, nb <= 2, one-byte string keys, int values.
+func VF_C07_MapOrder(na, nb int) {
+	mk := func(tag string, n int) (ks []string, vs []int) {
+		for i := 0; i < n; i++ {
+			k := vf.String(tag+"k"+itoa(i), 1)
+			for _, o := range ks {
+				vf.Assume(!vf.StrEq(o, k))
+			}
+			ks, vs = append(ks, k), append(vs, vf.Int(tag+"v"+itoa(i)))
+		}
+		if n == 2 && vf.StrLess(ks[1], ks[0]) { // keep the model sorted by key
+			ks[0], ks[1], vs[0], vs[1] = ks[1], ks[0], vs[1], vs[0]
+		}
+		return
+	}
+	ak, av := mk("a", na)
+	bk, bv := mk("b", nb)
+	less := func(xk []string, xv []int, yk []string, yv []int) bool {
+		for i := 0; i < len(xk) && i < len(yk); i++ {
+			if !vf.StrEq(xk[i], yk[i]) {
+				return vf.StrLess(xk[i], yk[i])
+			}
+			if xv[i] != yv[i] {
+				return xv[i] < yv[i]
+			}
+		}
+		return len(xk) < len(yk)
+	}
+	build := func(ks []string, vs []int) map[string]int {
+		m := map[string]int{}
+		for i := len(ks) - 1; i >= 0; i-- {
+			m[ks[i]] = vs[i]
+		}
+		return m
+	}
+	k := age.Collator[map[string]int]().Make()
+	vf.Budget(200 * listBudget)
+	rab := k.RankValues(build(ak, av), build(bk, bv))
+	vf.Assert("map-order-is-key-then-value-over-sorted-keys", vf.And((rab == lt) == less(ak, av, bk, bv), (rab == gt) == less(bk, bv, ak, av)))
+	ka := age.Collator[any]().Make()
+	vf.Assert("same-order-under-the-any-collator", ka.RankValues(build(ak, av), build(bk, bv)) == rab)
+	vf.BudgetReset()
+	vf.Reach("end")
 }
